@@ -68,6 +68,9 @@ class Domain(xtuml.MetaModel):
         for k in kinds:
             if (k, name) in self.symbols_by_kind:
                 return self.symbols_by_kind[(k, name)]
+            
+            if k == 'class' and name.upper() in self.metaclasses:
+                return self.find_class(name)
         
         if name in self.symbols:
             return self.symbols[name]
